@@ -376,12 +376,21 @@ theorem c17_countNonzero4_le (k0 : Az) (k1 : Lon) (k2 : Tmp) (vs : List (ℝ × 
 example : ¬ nonzero2 .rhophi 0 1 := by
   rw [c17_nonzero2_iff]; simp [cart2, xOf, yOf]
 example : nonzero4 .xy .z .tau 0 0 0 5 := by
-  rw [c17_nonzero4_iff _ _ _ _ _ _ _ trivial trivial (show (0 : ℝ) ≤ 5 by norm_num)]
+  rw [c17_nonzero4_iff .xy .z .tau 0 0 0 5 trivial trivial (show (0 : ℝ) ≤ 5 by norm_num)]
   simp only [cart4, tOf, mag2Of, xOf, yOf, zOf, Ne, Prod.mk.injEq, not_and]
   intro _ _ _ h
   have : sqrt ((5 : ℝ) ^ 2 + (0 ^ 2 + 0 ^ 2 + 0 ^ 2)) = 5 := by
     rw [show ((5 : ℝ) ^ 2 + (0 ^ 2 + 0 ^ 2 + 0 ^ 2)) = 5 ^ 2 by norm_num]; exact sqrt_sq (by norm_num)
   rw [this] at h; norm_num at h
+
+/-- `CanonTmp` is needed for the statement about DENOTATIONS: the non-representable storage τ = −1 at rest is
+"zero" for the code (its own `t` accessor is `√max(−τ², 0) = 0`, coherent with `c17_nonzero4_iff_acc`), while the
+specification formula `t = √(τ² + |p|²)` would give 1.  Not a defect: τ < 0 is outside the representable domain. -/
+example : ¬ nonzero4 .xy .z .tau 0 0 0 (-1) := by
+  have hc : P.copysign (((-1 : ℝ)) ^ 2) (-1) = -1 := by
+    unfold P.copysign; rw [if_neg (by norm_num)]; norm_num
+  simp only [nonzero4, d_planar_rho2, d_spatial_z, d_lorentz_t2, d_lorentz_tau2, d_spatial_mag2, hc]
+  norm_num
 
 /-! ### 3. the flavor is kept (by construction of the reducer, see the header) -/
 
